@@ -1240,6 +1240,20 @@ class Interp:
                 break
         return dedup(outs + [Out("normal", s) for s in cur])
 
+    def _nt_fields(self, sym, n):
+        """field names when `sym` is the term of a call of a repo function (or constructor) returning a NamedTuple of n fields"""
+        head = sym.split("(", 1)[0] if "(" in sym and sym.endswith(")") else None
+        if not head:
+            return None
+        name = head[4:] if head.startswith("new:") else head.rsplit(".", 1)[-1]
+        for q in (f"{self.module}.{name}", self.m.resolve_local(self.module, name)):
+            if not q:
+                continue
+            f = self.m.namedtuple_fields(q) if head.startswith("new:") or q in self.m.classes else self.m.returned_namedtuple_fields(q)
+            if f and len(f) == n:
+                return f
+        return None
+
     def is_rel(self, name):
         return self.relevant is None or name in self.relevant
 
@@ -1276,6 +1290,9 @@ class Interp:
         elif isinstance(target, (ast.Tuple, ast.List)):
             if av.kind == "tuple" and len(av.val) == len(target.elts):
                 parts = av.val
+            elif self.rule.wants_subscript and av.sym and self._nt_fields(av.sym, len(target.elts)):
+                # a, b = f(...) where f returns a NamedTuple: the elements are its fields (same terms as attribute access)
+                parts = [AV("unk", sym=f"{av.sym}.{fld}") for fld in self._nt_fields(av.sym, len(target.elts))]
             elif self.rule.wants_subscript and av.sym:
                 parts = [AV("unk", sym=self.rule.term("idx", av.sym, str(i))) for i in range(len(target.elts))]  # term-building rules: element terms
             else:
